@@ -114,8 +114,11 @@ def gen_step(rng, tds, depth=0):
         return {"op": "Loop", "args": carried, "M": pick(lambda t: t[1] == "i64" and _rank(t) == 0), "bodies": bodies,
                 "scan": rng.choice(["iter", "carried", "sum", "none"])}
     if name == "Scan":
-        return {"op": "Scan", "args": [pick(lambda t: t[1] in FLOATS and _rank(t) in (0, 1)), pick(lambda t: t[1] in FLOATS and (_rank(t) or 0) >= 1)],
-                "body": rng.choice(["sum", "keep", "outer"])}
+        st = {"op": "Scan", "args": [pick(lambda t: t[1] in FLOATS and _rank(t) in (0, 1)), pick(lambda t: t[1] in FLOATS and (_rank(t) or 0) >= 1)],
+              "body": rng.choice(["sum", "keep", "outer"])}
+        # the axis scanned along: default, first, LAST counted from the end (-1); derived from the picks (no extra draw from rng)
+        st["axis"] = [None, 0, -1, -1][(st["args"][0] + 2 * st["args"][1] + len(st["body"])) % 4]
+        return st
     if name == "Inline":
         return {"op": "Inline", "args": [pick(lambda t: t[1] in FLOATS)], "decl": rng.choice(["named", "const", "unknown", "norank"]),
                 "inner": rng.choice(["relu", "sum", "concat"])}
@@ -292,11 +295,20 @@ def apply_step(step, env, op, opset, expose):
         state, xs = a
 
         def sbody(s, x):
+            # the type DECLARED for the scanned-element argument against what Scan hands the body at run time: the operand without the
+            # scanned axis (ONNX Scan: "scan_input_axes ... negative value means counting dimensions from the back")
+            full = xs.unwrap_tensor().shape
+            if full is not None:
+                ax = (step.get("axis") or 0) % len(full)
+                BODY_ARG_OBS.append({"opset": opset, "axis": step.get("axis"), "operand": td_of_type(xs.type), "declared": td_of_type(x.type),
+                                     "runtime_shape": [d if isinstance(d, int) else None for d in full[:ax] + full[ax + 1:]]})
             if step["body"] == "sum":
                 return [op.add(s, op.reduce_sum(x, keepdims=0)), op.reduce_sum(x, keepdims=0)]
             if step["body"] == "keep":
                 return [s, x]
             return [op.add(s, op.reduce_sum(xs, keepdims=0)), op.add(x, x)]
+        if step.get("axis") is not None:
+            return list(op.scan([state, xs], body=sbody, num_scan_inputs=1, scan_input_axes=[step["axis"]]))
         return list(op.scan([state, xs], body=sbody, num_scan_inputs=1))
     if name == "Inline":
         m = _inline_model(op, step["inner"], step["decl"], a[0].unwrap_tensor())
@@ -306,6 +318,9 @@ def apply_step(step, env, op, opset, expose):
     if name == "Function":
         return list(_function(op, opset, step["inner"])(a[0]))
     raise KeyError(name)
+
+
+BODY_ARG_OBS: list = []   # filled by the Scan bodies of apply_step (generation and interpretation alike), read by c06.body_arg_oracle
 
 
 def interpret(prog, modules):
